@@ -454,20 +454,26 @@ impl Installer for SimInstaller {
     fn perform_reboot(&mut self) -> LocalBoxFuture<'_, Result<(), anyhow::Error>> {
         let w = self.w.clone();
         async move {
-            let gated = {
+            let (gated, fails) = {
                 let mut g = lock(&w);
                 if g.interact() {
                     drop(g);
                     return future::pending().await;
                 }
                 g.push(Ev::Reboot);
-                g.script.gated.reboot
+                let check = g.sessions.len().saturating_sub(1);
+                let fails = g.script.checks.get(check).map(|c| c.reboot_fails).unwrap_or(false);
+                (g.script.gated.reboot, fails)
             };
             if gated {
                 let (_, gate) = GateFut::new(&w, GateKind::Reboot);
                 gate.await;
             }
-            Ok(())
+            if fails {
+                Err(anyhow::anyhow!("reboot was refused by the platform"))
+            } else {
+                Ok(())
+            }
         }
         .boxed_local()
     }
